@@ -4,6 +4,7 @@ import (
 	"encoding/json"
 	"fmt"
 	"math/rand/v2"
+	"strings"
 
 	"github.com/opencontainers/go-digest"
 	ocispec "github.com/opencontainers/image-spec/specs-go/v1"
@@ -186,6 +187,18 @@ func (u *Universe) NewManifest(rng *rand.Rand, m *Model, repo string) MT {
 				mf.Subject = &d
 				kind = "image+dangling-subject"
 			}
+			// a subject may dangle, but its descriptor has to be well-formed like any other
+			switch rng.IntN(10) {
+			case 0:
+				mf.Subject.Digest = "sha256:abcd"
+				kind = "image+subject-bad-digest"
+			case 1:
+				mf.Subject.Digest = digest.Digest("sha512:" + strings.Repeat("0", 64))
+				kind = "image+subject-bad-digest"
+			case 2:
+				mf.Subject.MediaType = ""
+				kind = "image+subject-odd"
+			}
 		}
 		mk(kind, MTImage, mf)
 	case k < 12: // index
@@ -204,6 +217,10 @@ func (u *Universe) NewManifest(rng *rand.Rand, m *Model, repo string) MT {
 			}
 			ix.Subject = &d
 			kind = "index+subject"
+			if rng.IntN(8) == 0 {
+				ix.Subject.Digest = "sha256:nothex-nothex"
+				kind = "index+subject-bad-digest"
+			}
 		}
 		mk(kind, MTIndex, ix)
 	case k < 14: // opaque media type, arbitrary bytes
